@@ -55,7 +55,9 @@ func FlatFlankCam2D(
 	s.u = u.Normalize()
 	s.l = u.Length()
 	// work out the bounding box
-	s.bb = Box2{v2.Vec{-baseRadius, -baseRadius}, v2.Vec{baseRadius, distance + noseRadius}}
+	// (the nose circle is wider than the base circle when noseRadius > baseRadius)
+	xmax := math.Max(baseRadius, noseRadius)
+	s.bb = Box2{v2.Vec{-xmax, -baseRadius}, v2.Vec{xmax, distance + noseRadius}}
 	return &s, nil
 }
 
